@@ -1939,134 +1939,82 @@ that channel. All output links of the level hold again. -/
 theorem pushUp_level {args body rets oh srcs} (σ τ : St) (j : Nat) (m : Node) (v : Val) (ch : Option Nat)
     (hb : body[j]? = some m) (hos : OutSync (.mac args body rets oh srcs) σ)
     (i1 : OutSync m τ) (i2 : SameIn τ (σ.sub j))
-    (i3 : ∀ o', τ.get .out o' = if ch = some o' then v else (σ.sub j).get .out o')
-    (i4 : ∀ k, τ.get .uiOut k = (σ.sub j).get .uiOut k) :
+    (i3 : ∀ o', τ.get .out o' = if ch = some o' then v else (σ.sub j).get .out o') :
     OutSync (.mac args body rets oh srcs) (pushUp rets j v (σ.graft j τ) ch).1 ∧
     SameIn (pushUp rets j v (σ.graft j τ) ch).1 σ ∧
     (∀ o', (pushUp rets j v (σ.graft j τ) ch).1.get .out o' =
       if (pushUp rets j v (σ.graft j τ) ch).2 = some o' then v else σ.get .out o') ∧
     (∀ k, (pushUp rets j v (σ.graft j τ) ch).1.get .uiOut k = σ.get .uiOut k) := by
   simp only [OutSync] at hos
-    have hkids : ∀ (σ' : St), (∀ jj, σ'.sub jj = (σ.graft j τ).sub jj) → OutSyncBody body 0 σ' := by
-      intro σ' hσ'
-      rw [outSyncBody_pointwise]
-      intro t n' hn'
-      rw [Nat.zero_add, hσ']
-      by_cases ht : t = j
-      · subst ht
-        rw [hb] at hn'; cases hn'
-        rw [St.sub_graft_same]; exact i1
-      · rw [St.sub_graft_other _ _ _ _ ht]
-        have := (outSyncBody_pointwise body 0 σ).mp hos.2 t n' hn'
-        simpa using this
-    have hret : ∀ (σ' : St) (x : Ret), (∀ jj, σ'.sub jj = (σ.graft j τ).sub jj) →
-        (∀ k, σ'.get .uiOut k = σ.get .uiOut k) →
-        (∀ o', x = .out j o' → ch ≠ some o') → retVal σ' x = retVal σ x := by
-      intro σ' x h1 h2 h3
-      cases x with
-      | arg k => exact h2 k
-      | out j' o' =>
-        simp only [retVal]
-        rw [h1]
-        by_cases hj : j' = j
-        · subst hj
-          rw [St.sub_graft_same, i3 o']
-          have := h3 o' rfl
-          simp [this]
-        · rw [St.sub_graft_other _ _ _ _ hj]
-    rcases pushUp_cases rets j v (σ.graft j τ) ch with ⟨hp, hnot⟩ | ⟨o', r0, hch, hp, hr0, hlast⟩
-    · rw [hp]
-      refine ⟨?_, sameIn_graft σ τ j i2, by intro o'; simp, by intro k; simp⟩
-      simp only [OutSync]
-      refine ⟨?_, hkids _ (fun _ => rfl)⟩
+  have hkids : ∀ (σ' : St), (∀ jj, σ'.sub jj = (σ.graft j τ).sub jj) → OutSyncBody body 0 σ' := by
+    intro σ' hσ'
+    rw [outSyncBody_pointwise]
+    intro t n' hn'
+    rw [Nat.zero_add, hσ']
+    by_cases ht : t = j
+    · subst ht
+      rw [hb] at hn'; cases hn'
+      rw [St.sub_graft_same]; exact i1
+    · rw [St.sub_graft_other _ _ _ _ ht]
+      have := (outSyncBody_pointwise body 0 σ).mp hos.2 t n' hn'
+      simpa using this
+  have hret : ∀ (σ' : St) (x : Ret), (∀ jj, σ'.sub jj = (σ.graft j τ).sub jj) →
+      (∀ k, σ'.get .uiOut k = σ.get .uiOut k) →
+      (∀ o', x = .out j o' → ch ≠ some o') → retVal σ' x = retVal σ x := by
+    intro σ' x h1 h2 h3
+    cases x with
+    | arg k => exact h2 k
+    | out j' o' =>
+      simp only [retVal]
+      rw [h1]
+      by_cases hj : j' = j
+      · subst hj
+        rw [St.sub_graft_same, i3 o']
+        have := h3 o' rfl
+        simp [this]
+      · rw [St.sub_graft_other _ _ _ _ hj]
+  rcases pushUp_cases rets j v (σ.graft j τ) ch with ⟨hp, hnot⟩ | ⟨o', r0, hch, hp, hr0, hlast⟩
+  · rw [hp]
+    refine ⟨?_, sameIn_graft σ τ j i2, by intro o'; simp, by intro k; simp⟩
+    simp only [OutSync]
+    refine ⟨?_, hkids _ (fun _ => rfl)⟩
+    intro r x hr hx
+    rw [St.get_graft, hos.1 r x hr hx]
+    refine (hret _ x (fun _ => rfl) (fun k => St.get_graft _ _ _ _ _) ?_).symm
+    intro o'' hxe hch
+    subst hxe
+    exact hnot o'' hch (List.mem_of_getElem? hr)
+  · rw [hp]
+    subst hch
+    refine ⟨?_, ?_, ?_, by intro k; simp⟩
+    · simp only [OutSync]
+      refine ⟨?_, hkids _ (fun jj => by simp)⟩
       intro r x hr hx
-      rw [St.get_graft, hos.1 r x hr hx]
-      refine (hret _ x (fun _ => rfl) (fun k => St.get_graft _ _ _ _ _) ?_).symm
-      intro o'' hxe hch
-      subst hxe
-      exact hnot o'' hch (List.mem_of_getElem? hr)
-    · rw [hp]
-      subst hch
-      refine ⟨?_, ?_, ?_, by intro k; simp⟩
-      · simp only [OutSync]
-        refine ⟨?_, hkids _ (fun jj => by simp)⟩
-        intro r x hr hx
-        by_cases hxe : x = .out j o'
-        · subst hxe
-          have : r = r0 := last_occ_unique rets _ r r0 hr hx hr0 hlast
-          subst this
-          simp only [St.get_set, and_self, if_true, retVal, St.sub_set, St.sub_graft_same]
-          rw [i3 o']; simp
-        · have hne : r ≠ r0 := by
-            intro e; subst e
-            rw [hr0] at hr; cases hr; exact hxe rfl
-          simp only [St.get_set, hne, and_false, if_false, St.get_graft]
-          rw [hos.1 r x hr hx]
-          refine (hret _ x (fun jj => by simp) (fun k => by simp) ?_).symm
-          intro o'' hxe' hch
-          simp only [Option.some.injEq] at hch
-          subst hch
-          exact hxe hxe'
-      · exact fun q p k hp => by
-          have h1 := sameIn_set_out (σ.graft j τ) r0 v q p k hp
-          have h2 := sameIn_graft σ τ j i2 q p k hp
-          exact h1.trans h2
-      · intro o''
-        by_cases he : o'' = r0
-        · subst he; simp
-        · have : ¬ (r0 = o'') := fun e => he e.symm
-          simp [he, this]
-
-
-/-! ## histories -/
-
-/-- the states a macro instance goes through: construction, assignments to its own inputs
-(`macro.inputs.x = v`, keyword arguments of the constructor or of a call), successful runs, direct
-assignments to outputs of leaf children -/
-inductive Reach (n : Node) : St → Prop
-  | build : Reach n (build n)
-  | setIn {σ : St} (k : Nat) (v : Val) : Reach n σ → Reach n (setIn n σ k v)
-  | run {σ σ' : St} : Reach n σ → run n σ = some σ' → Reach n σ'
-  /-- `leaf_child.outputs.o.value = v` anywhere below the macro (the sending end of output links) -/
-  | setOutLeaf {σ : St} (p : Path) (o : Nat) (v : Val) : Reach n σ →
-  (∃ f s, nodeAt n p = some (.leaf f s)) → Reach n (setOutAt n σ p o v).1
-
-theorem anyNd_false_iff (f : Nat → Val) (n : Nat) : anyNd f n = false ↔ ∀ k, k < n → f k ≠ .nd := by
-  constructor
-  · intro h k hk
-simp only [anyNd, List.any_eq_false, List.mem_range] at h
-exact ne_nd_of_isNd_false (by simpa using h k hk)
-  · exact anyNd_false f n
-
-theorem run_some_inputs (n : Node) (σ σ' : St) (h : run n σ = some σ') : ∀ i, i < n.arity → σ.get .inp i ≠ .nd := by
-  cases n with
-  | leaf f srcs =>
-simp only [run] at h
-split at h
-· cases h
-· rename_i hnd
-  exact (anyNd_false_iff _ _).mp (by simpa [Node.arity] using hnd)
-  | mac args body rets oh s =>
-simp only [run] at h
-split at h
-· cases h
-· rename_i hnd
-  exact (anyNd_false_iff _ _).mp (by simpa [Node.arity] using hnd)
-
-theorem reach_inv (n : Node) (hwf : WF n) (hnd : NoDupH n) (σ : St) (h : Reach n σ) :
-Inv true n σ ∧ OutSync n σ := by
-  induction h with
-  | build => exact ⟨build_inv n hwf, build_outSync n⟩
-  | setIn k v _ ih => exact ⟨setIn_inv true n _ k v ih.1, setIn_outSync n _ k v ih.2⟩
-  | @run σ0 σ1 _ hrun ih =>
-obtain ⟨σ2, h2, _, hi, ho, _⟩ := run_value n σ0 (σ0.get .inp) hwf hnd ih.1 (fun _ _ => rfl)
-  (run_some_inputs n σ0 σ1 hrun)
-rw [hrun] at h2
-cases h2
-exact ⟨hi, ho⟩
-  | setOutLeaf p o v _ hleaf ih =>
-obtain ⟨h1, h2, _, _⟩ := setOutAt_leaf o v p n _ hleaf ih.2
-exact ⟨inv_sameIn true n _ _ h2 ih.1, h1⟩
+      by_cases hxe : x = .out j o'
+      · subst hxe
+        have : r = r0 := last_occ_unique rets _ r r0 hr hx hr0 hlast
+        subst this
+        simp only [St.get_set, and_self, if_true, retVal, St.sub_set, St.sub_graft_same]
+        rw [i3 o']; simp
+      · have hne : r ≠ r0 := by
+          intro e; subst e
+          rw [hr0] at hr; cases hr; exact hxe rfl
+        simp only [St.get_set, hne, and_false, if_false, St.get_graft]
+        rw [hos.1 r x hr hx]
+        refine (hret _ x (fun jj => by simp) (fun k => by simp) ?_).symm
+        intro o'' hxe' hch
+        simp only [Option.some.injEq] at hch
+        subst hch
+        exact hxe hxe'
+    · exact fun q p k hp => by
+        have h1 := sameIn_set_out (σ.graft j τ) r0 v q p k hp
+        have h2 := sameIn_graft σ τ j i2 q p k hp
+        exact h1.trans h2
+    · intro o''
+      by_cases he : o'' = r0
+      · subst he; simp
+      · have : ¬ (r0 = o'') := fun e => he e.symm
+        simp [he, this]
 
 /-- assigning the output of a LEAF child at path `p` (the sending end of output links): stored, pushed
 up through every macro that returns it; all links stay in place -/
@@ -2110,7 +2058,161 @@ theorem setOutAt_leaf (o : Nat) (v : Val) : ∀ (p : Path) (n : Node) (σ : St),
         simp only [setOutAt, hb]
         generalize (setOutAt m (σ.sub j) q o v).1 = τ at i1 i2 i3 i4 ⊢
         generalize (setOutAt m (σ.sub j) q o v).2 = ch at i3 ⊢
-        exact pushUp_level σ τ j m v ch hb (by simpa [OutSync] using hos) i1 i2 i3 i4
+        exact pushUp_level σ τ j m v ch hb hos i1 i2 i3
+
+/-- assigning the OUTPUT of the UI node of parameter `k` of the macro at path `p` (the sending end of
+the pass-through link, when the creator returned the UI node): stored, pushed to the macro output linked
+to it and further up; all output links stay in place -/
+theorem setUiOutAt_sync (k : Nat) (v : Val) : ∀ (p : Path) (n : Node) (σ : St),
+    (∃ a b r oh s, nodeAt n p = some (.mac a b r oh s)) → OutSync n σ →
+    OutSync n (setUiOutAt n σ p k v).1 ∧ SameIn (setUiOutAt n σ p k v).1 σ ∧
+    (∀ o', (setUiOutAt n σ p k v).1.get .out o' =
+      if (setUiOutAt n σ p k v).2 = some o' then v else σ.get .out o') := by
+  intro p
+  induction p with
+  | nil =>
+    intro n σ hmac hos
+    obtain ⟨a, b, r, oh, s, hn⟩ := hmac
+    simp only [nodeAt, Option.some.injEq] at hn
+    subst hn
+    simp only [OutSync] at hos
+    have hsame : SameIn (σ.set .uiOut k v) σ := by
+      intro q p' k' hp; rcases hp with hp | hp <;> simp [St.set, hp]
+    have hretne : ∀ x, x ≠ Ret.arg k → retVal (σ.set .uiOut k v) x = retVal σ x := by
+      intro x hx
+      cases x with
+      | arg k' =>
+        simp only [retVal, St.get_set]
+        have : k' ≠ k := fun e => hx (by rw [e])
+        simp [this]
+      | out j o => simp [retVal]
+    have hbody : ∀ σ' : St, (∀ jj, σ'.sub jj = σ.sub jj) → OutSyncBody b 0 σ' :=
+      fun σ' h => outSyncBody_frame b 0 σ σ' (fun jj _ => h jj) hos.2
+    cases hrv : recvOf (.arg k) r 0 with
+    | none =>
+      have hE : setUiOutAt (.mac a b r oh s) σ [] k v = (σ.set .uiOut k v, none) := by
+        simp [setUiOutAt, hrv]
+      rw [hE]
+      simp only
+      have hnot := recvOf_none _ _ _ hrv
+      refine ⟨?_, hsame, by intro o'; simp⟩
+      simp only [OutSync]
+      refine ⟨?_, hbody _ (fun jj => by simp)⟩
+      intro r' x hr hx
+      have hxne : x ≠ Ret.arg k := fun e => hnot (e ▸ List.mem_of_getElem? hr)
+      rw [hretne x hxne]
+      simpa using hos.1 r' x hr hx
+    | some r0 =>
+      have hE : setUiOutAt (.mac a b r oh s) σ [] k v = ((σ.set .uiOut k v).set .out r0 v, some r0) := by
+        simp [setUiOutAt, hrv]
+      rw [hE]
+      simp only
+      obtain ⟨_, hr0, hlast⟩ := recvOf_some _ _ _ _ hrv
+      simp only [Nat.sub_zero] at hr0 hlast
+      refine ⟨?_, ?_, ?_⟩
+      · simp only [OutSync]
+        refine ⟨?_, hbody _ (fun jj => by simp)⟩
+        intro r' x hr hx
+        by_cases hxe : x = Ret.arg k
+        · subst hxe
+          have : r' = r0 := last_occ_unique r _ r' r0 hr hx hr0 hlast
+          subst this
+          simp [retVal]
+        · have hne : r' ≠ r0 := by
+            intro e; subst e
+            rw [hr0] at hr; cases hr; exact hxe rfl
+          rw [retVal_set_out, hretne x hxe]
+          simp only [St.get_set, hne, and_false, if_false]
+          simpa using hos.1 r' x hr hx
+      · exact fun q p' k' hp => by
+          have h1 := sameIn_set_out (σ.set .uiOut k v) r0 v q p' k' hp
+          exact h1.trans (hsame q p' k' hp)
+      · intro o''
+        by_cases he : o'' = r0
+        · subst he; simp
+        · have : ¬ (r0 = o'') := fun e => he e.symm
+          simp [he, this]
+  | cons j q ih =>
+    intro n σ hmac hos
+    obtain ⟨a, b, r, oh, s, hn⟩ := hmac
+    cases n with
+    | leaf f' s' => simp [nodeAt] at hn
+    | mac args body rets oh' srcs =>
+      simp only [nodeAt] at hn
+      cases hb : body[j]? with
+      | none => simp [hb] at hn
+      | some m =>
+        simp only [hb] at hn
+        have hosm : OutSync m (σ.sub j) := by
+          have h2 := hos
+          simp only [OutSync] at h2
+          have := (outSyncBody_pointwise body 0 σ).mp h2.2 j m hb
+          simpa using this
+        obtain ⟨i1, i2, i3⟩ := ih m (σ.sub j) ⟨a, b, r, oh, s, hn⟩ hosm
+        simp only [setUiOutAt, hb]
+        generalize (setUiOutAt m (σ.sub j) q k v).1 = τ at i1 i2 i3 ⊢
+        generalize (setUiOutAt m (σ.sub j) q k v).2 = ch at i3 ⊢
+        obtain ⟨h1, h2, h3, _⟩ := pushUp_level σ τ j m v ch hb hos i1 i2 i3
+        exact ⟨h1, h2, h3⟩
+
+/-! ## histories -/
+
+/-- the states a macro instance goes through: construction, assignments to its own inputs
+(`macro.inputs.x = v`, keyword arguments of the constructor or of a call), successful runs, direct
+assignments to outputs of leaf children -/
+inductive Reach (n : Node) : St → Prop
+  | build : Reach n (build n)
+  | setIn {σ : St} (k : Nat) (v : Val) : Reach n σ → Reach n (setIn n σ k v)
+  | run {σ σ' : St} : Reach n σ → run n σ = some σ' → Reach n σ'
+  /-- `leaf_child.outputs.o.value = v` anywhere below the macro (the sending end of output links) -/
+  | setOutLeaf {σ : St} (p : Path) (o : Nat) (v : Val) : Reach n σ →
+      (∃ f s, nodeAt n p = some (.leaf f s)) → Reach n (setOutAt n σ p o v).1
+  /-- `ui_k.outputs.user_input.value = v` of a macro anywhere at or below the top (sending end of a
+  pass-through link) -/
+  | setUiOut {σ : St} (p : Path) (k : Nat) (v : Val) : Reach n σ →
+      (∃ a b r oh s, nodeAt n p = some (.mac a b r oh s)) → Reach n (setUiOutAt n σ p k v).1
+
+theorem anyNd_false_iff (f : Nat → Val) (n : Nat) : anyNd f n = false ↔ ∀ k, k < n → f k ≠ .nd := by
+  constructor
+  · intro h k hk
+    simp only [anyNd, List.any_eq_false, List.mem_range] at h
+    exact ne_nd_of_isNd_false (by simpa using h k hk)
+  · exact anyNd_false f n
+
+theorem run_some_inputs (n : Node) (σ σ' : St) (h : run n σ = some σ') : ∀ i, i < n.arity → σ.get .inp i ≠ .nd := by
+  cases n with
+  | leaf f srcs =>
+    simp only [run] at h
+    split at h
+    · cases h
+    · rename_i hnd
+      exact (anyNd_false_iff _ _).mp (by simpa [Node.arity] using hnd)
+  | mac args body rets oh s =>
+    simp only [run] at h
+    split at h
+    · cases h
+    · rename_i hnd
+      exact (anyNd_false_iff _ _).mp (by simpa [Node.arity] using hnd)
+
+theorem reach_inv (n : Node) (hwf : WF n) (hnd : NoDupH n) (σ : St) (h : Reach n σ) :
+    Inv true n σ ∧ OutSync n σ := by
+  induction h with
+  | build => exact ⟨build_inv n hwf, build_outSync n⟩
+  | setIn k v _ ih => exact ⟨setIn_inv true n _ k v ih.1, setIn_outSync n _ k v ih.2⟩
+  | @run σ0 σ1 _ hrun ih =>
+    obtain ⟨σ2, h2, _, hi, ho, _⟩ := run_value n σ0 (σ0.get .inp) hwf hnd ih.1 (fun _ _ => rfl)
+      (run_some_inputs n σ0 σ1 hrun)
+    rw [hrun] at h2
+    cases h2
+    exact ⟨hi, ho⟩
+  | setOutLeaf p o v _ hleaf ih =>
+    obtain ⟨h1, h2, _, _⟩ := setOutAt_leaf o v p n _ hleaf ih.2
+    exact ⟨inv_sameIn true n _ _ h2 ih.1, h1⟩
+  | setUiOut p k v _ hmac ih =>
+    obtain ⟨h1, h2, _⟩ := setUiOutAt_sync k v p n _ hmac ih.2
+    exact ⟨inv_sameIn true n _ _ h2 ih.1, h1⟩
+
+
 
 /-! ## a parameter nobody uses -/
 
@@ -2206,5 +2308,22 @@ theorem setInKid_holds : ∀ (ns : List Node) (base j i : Nat) (v : Val) (σ : S
     simp only [HoldsKid, setInKid]
     exact setInKid_holds ns (base + 1) j i v σ
 end
+
+
+/-! ## a refused run -/
+
+theorem run_refused (n : Node) (σ : St) (h : refused n σ = true) : run n σ = none := by
+  cases n with
+  | leaf f srcs => simp only [refused, Node.arity] at h; simp [run, h]
+  | mac args body rets oh s => simp only [refused, Node.arity] at h; simp [run, h]
+
+theorem refused_iff (n : Node) (σ : St) : refused n σ = true ↔ ∃ i, i < n.arity ∧ σ.get .inp i = .nd := by
+  simp only [refused, anyNd, List.any_eq_true, List.mem_range]
+  constructor
+  · rintro ⟨i, hi, h⟩
+    refine ⟨i, hi, ?_⟩
+    cases hv : σ.get .inp i <;> simp [hv, Val.isNd] at h ⊢
+  · rintro ⟨i, hi, h⟩
+    exact ⟨i, hi, by simp [h, Val.isNd]⟩
 
 end PwVerif.Macro
